@@ -121,17 +121,20 @@ pub fn rebuild_archive<P: AsRef<Path>>(
 
     // Phase 2: Extract files and metadata
     log::debug!("Phase 2: Extracting files and metadata");
-    let extracted_files =
+    let (extracted_files, listed_count) =
         extract_files_with_metadata(&mut source, &metadata, &options, &progress_callback)?;
 
+    // The summary is derived from the listing the rebuild iterated over, so that
+    // `source = extracted + skipped` holds whatever the table-based count says.
     let extracted_count = extracted_files.len();
-    log::info!("Extracted {extracted_count} files from source archive");
+    let skipped_count = listed_count - extracted_count;
+    log::info!("Extracted {extracted_count} of {listed_count} files from source archive");
 
     if options.list_only {
         return Ok(RebuildSummary {
-            source_files: metadata.file_count,
+            source_files: listed_count,
             extracted_files: extracted_count,
-            skipped_files: metadata.file_count - extracted_count,
+            skipped_files: skipped_count,
             target_format: determine_target_format(&metadata, &options),
             verified: false,
         });
@@ -160,9 +163,9 @@ pub fn rebuild_archive<P: AsRef<Path>>(
     };
 
     Ok(RebuildSummary {
-        source_files: metadata.file_count,
+        source_files: listed_count,
         extracted_files: extracted_count,
-        skipped_files: metadata.file_count - extracted_count,
+        skipped_files: skipped_count,
         target_format,
         verified,
     })
@@ -205,12 +208,14 @@ fn analyze_archive(archive: &mut Archive) -> Result<ArchiveMetadata> {
 }
 
 /// Extract files with their metadata from the source archive
+///
+/// Returns the extracted files and the number of files the source archive lists.
 fn extract_files_with_metadata(
     archive: &mut Archive,
     metadata: &ArchiveMetadata,
     options: &RebuildOptions,
     progress_callback: &Option<ProgressCallback>,
-) -> Result<Vec<(Vec<u8>, FileMetadata)>> {
+) -> Result<(Vec<(Vec<u8>, FileMetadata)>, usize)> {
     // Get file list. Prefer the (listfile)-based listing: entries need real names to be
     // readable, and table enumeration of HET/BET archives only yields placeholder names.
     let files = if metadata.has_het_bet {
@@ -273,7 +278,7 @@ fn extract_files_with_metadata(
         extracted_files.sort_by_key(|(_, meta)| meta.original_index);
     }
 
-    Ok(extracted_files)
+    Ok((extracted_files, total_files))
 }
 
 /// Rebuild the archive with extracted files
